@@ -11,7 +11,8 @@ RULE = ("every truncation offset of the body of generated VCD files (cuts inside
         "file's; when the cut is at a line boundary the result is exactly the meaning of the lines present. "
         "Cuts that leave an incomplete last line may panic on this tree (known finding D9): for those only PANIC is "
         "tolerated, every other outcome is still checked. Non-trivial: the cut removes at least one complete line and "
-        "keeps at least one; distinct = distinct (file, offset).")
+        "keeps at least one; distinct = distinct (file, offset). A cut directly after the text of a line (only its newline missing) "
+        "counts as a line boundary: the pending token is flushed at end of input.")
 ASSUMPTIONS = ["complete files follow the line discipline of C03 (one change per line) so that 'the lines present' is well defined"]
 TRUSTED_BASE = ["Python oracle gen.expected_obs applied to the steps whose lines are present", "prefix predicate c15.prefix_ok"]
 
@@ -104,33 +105,41 @@ def run(res, rng, tier, model_ok, replay=None):
             sarg = gen.sigs_arg(sigs, kind, idx, nuniq, idents)
             table, out = gen.expected_obs(sigs, steps, imp)
             full = gen.obs_string(table, out, idx)
-            # offsets of line ends
+            # offsets of line ends, and of the ends of the text of each line (newline still missing)
             ends = {1: 0}
+            text_ends = {}
             pos = 1
             for n, (l, _, _) in enumerate(lines):
+                text_ends[pos + len(l.rstrip(b"\r\n"))] = n + 1
                 pos += len(l)
                 ends[pos] = n + 1
             for cut in range(0, len(body) + 1):
                 part = body[:cut]
                 tail = part.rsplit(b"\n", 1)[-1] if b"\n" in part else part
                 incomplete = len(tail.strip(b" \t\r")) > 0 and cut > 0
+                complete_text = cut in text_ends and cut not in ends
+                if complete_text:
+                    incomplete = False        # the whole text of the line is present, only the newline is missing
                 if cut == 0:
                     incomplete = False
                 mode = rng.choice(["st", "rd", "mt:3:7", "st"])
-                if mode.startswith("mt"):
+                if cut <= 1:
+                    mode = rng.choice(["st", "rd", "mt:3:7", "mt:2:1", "hf:1"])
+                if mode.startswith("mt") and cut > 1:
                     from . import c03
                     ok, nchunks = c03.chunks_ok(part, 3, 7)
                     size = -(-len(part) // max(nchunks, 1)) if part else 1
-                    if (not ld) or incomplete or cut < 12 or not ok or (imp and nchunks > 1 and not c03.implicit_ok(part, size)):
+                    if (not ld) or incomplete or complete_text or cut < 12 or not ok or (imp and nchunks > 1 and not c03.implicit_ok(part, size)):
                         mode = "st"
                 c = {"line": "vcd %s %s %s %s" % (mode, sarg, hdr.hex(), gen.hexs(part)),
                      "klass": ("incomplete-line-" if incomplete else "line-boundary-") + mode.split(":")[0]}
-                if cut in ends and not incomplete:
-                    st = restricted_steps(steps, imp, lines, ends[cut])
+                if (cut in ends or complete_text) and not incomplete:
+                    nl = text_ends[cut] if complete_text else ends[cut]
+                    st = restricted_steps(steps, imp, lines, nl)
                     imp2 = imp and len(st) > 0
                     t2, o2 = gen.expected_obs(sigs, st, imp2) if st else ([], {i: [] for i in range(len(sigs))})
                     c["expect"] = gen.obs_string(t2, o2, idx)
-                    if 0 < ends[cut] < len(lines):
+                    if 0 < nl < len(lines):
                         c["key"] = (f, cut)
                 else:
                     def pred(obs, full=full, incomplete=incomplete):
